@@ -56,7 +56,7 @@ def run_job(job: dict) -> dict:
 
 def plan(tier: str, seed: int) -> dict:
     if tier == "quick":
-        return {"n_cases": 400, "cases_per_job": 1, "budget_s": 120, "min_budget": 40,
+        return {"n_cases": 400, "cases_per_job": 1, "budget_s": 90, "min_budget": 40, "slice": 16,
                 "params": {"min_ops": 60, "max_ops": 300, "max_stmts": 10}}
     return {"n_cases": 20000, "cases_per_job": 1, "budget_s": 1500, "min_budget": 200,
             "params": {"min_ops": 100, "max_ops": 600, "max_stmts": 16}}
